@@ -184,7 +184,7 @@ func checkC08(c *Ctx) {
 		return
 	}
 	checkRelevantReviewedForms(c, f, "C08.z", "an operator primitive (table lookup, operator test, the climbing functions, the operator node factories and emitter)",
-		primSet("lookupBinOp", "lookupBinOpNF", "psCurIsBinOp", "psNextNonEOLIsBinOp", "parseBinAfter", "parseExprWithPrec", "newBinOpCall", "newBinOpNormal", "newEqNeq", "newPipeCall", "binOpToGo", "newUnaryNotCall"), 8)
+		primSet("lookupBinOp", "lookupBinOpNF", "psCurIsBinOp", "psNextNonEOLIsBinOp", "parseBinAfter", "parseExprWithPrec", "newBinOpCall", "newBinOpNormal", "newEqNeq", "newPipeCall", "binOpToGo", "newUnaryNotCall"), 6)
 	tab := checkBinOpTable(c, "C08.a", f.M, "binOpMap", "New_TokenType_", "fc", true)
 	minRank := 1 << 30
 	for _, e := range tab {
